@@ -1,0 +1,32 @@
+//go:build verif
+
+package manager
+
+// Hooks for the verification harness: every background job reports when its
+// goroutine starts (begin), waits at a gate immediately before it posts its
+// completion to the service loop (gate) and reports when the completion
+// closure has run (end). The harness sets the function variables.
+
+var (
+	VerifJobBegin func(kind string)
+	VerifJobGate  func(kind string)
+	VerifJobEnd   func(kind string)
+)
+
+func verifJobBegin(kind string) {
+	if f := VerifJobBegin; f != nil {
+		f(kind)
+	}
+}
+
+func verifJobGate(kind string) {
+	if f := VerifJobGate; f != nil {
+		f(kind)
+	}
+}
+
+func verifJobEnd(kind string) {
+	if f := VerifJobEnd; f != nil {
+		f(kind)
+	}
+}
